@@ -588,6 +588,15 @@ func (d *Decoder) newCoderAndShards() (rsec16.Coder, [][]byte, error) {
 	}
 
 	if len(d.parityShards) == 0 {
+		for _, info := range d.fileIntegrityInfos {
+			for _, shardInfo := range info.shardInfos {
+				if shardInfo.data == nil {
+					// Data is missing and there is
+					// nothing to repair it with.
+					return rsec16.Coder{}, nil, rsec16.NotEnoughParityShardsError{}
+				}
+			}
+		}
 		return rsec16.Coder{}, nil, errors.New("no parity shards")
 	}
 
